@@ -849,6 +849,9 @@ func (g *Gen) make(k string, m *model.DB) Op {
 	case "DeleteById":
 		return Op{K: k, Coll: coll, ID: g.pickID(mc, 0.75)}
 	case "UpdateById":
+		if !cfg.Determ && g.R.Chance(0.04) {
+			return Op{K: k, Coll: coll, ID: g.pickID(mc, 0.9), UpdStyle: "nil"} // the update function returns nil
+		}
 		return Op{K: k, Coll: coll, ID: g.pickID(mc, 0.9), Upd: g.updMapFor(mc, g.R.Chance(0.5)), UpdStyle: updStyles[g.R.Intn(len(updStyles))]}
 	case "ReplaceById":
 		id := g.pickID(mc, 0.9)
